@@ -556,13 +556,11 @@ func (sc *serverConn) handleStreams() {
 	// canCloseAfterGoAway reports whether every stream the GOAWAY promised to
 	// finish has finished, so the connection can go.
 	//
-	// A GOAWAY that carries no reference has nothing to wait for and nothing to
-	// close on either: those paths break the loop where they send it.
+	// The reference is the highest stream accepted when the GOAWAY went out.
+	// It is zero when none had been: then nothing was promised, and the
+	// connection can go at once.
 	canCloseAfterGoAway := func() bool {
 		ref := atomic.LoadUint32(&sc.closeRef)
-		if ref == 0 {
-			return false
-		}
 
 		for _, strm := range strms {
 			if strm.origType == FrameHeaders && strm.ID() <= ref {
@@ -715,6 +713,13 @@ loop:
 					// only send go away on idle stream not on an already-closed stream
 					if fr.Stream() > sc.lastID {
 						sc.writeGoAway(fr.Stream(), ProtocolError, "RST_STREAM on idle stream")
+
+						// No further frame may ever reach this loop, so this
+						// is the moment to notice that nothing is left to
+						// wait for.
+						if canCloseAfterGoAway() {
+							break loop
+						}
 					}
 
 					continue
@@ -732,6 +737,10 @@ loop:
 					case FramePriority, FrameWindowUpdate, FrameResetStream:
 					default:
 						sc.writeGoAway(fr.Stream(), StreamClosedError, "frame on closed stream")
+
+						if canCloseAfterGoAway() {
+							break loop
+						}
 					}
 
 					continue
@@ -779,6 +788,11 @@ loop:
 
 				if fr.Stream() < sc.lastID {
 					sc.writeGoAway(fr.Stream(), ProtocolError, "stream ID is lower than the latest")
+
+					if canCloseAfterGoAway() {
+						break loop
+					}
+
 					continue
 				}
 
@@ -817,6 +831,11 @@ loop:
 				nstrm := strms.getPrevious(FrameHeaders)
 				if nstrm != nil && !nstrm.headersFinished {
 					sc.writeError(nstrm, NewGoAwayError(ProtocolError, "previous stream headers not ended"))
+
+					if canCloseAfterGoAway() {
+						break loop
+					}
+
 					continue
 				}
 
